@@ -3,7 +3,7 @@
 (* against APIValidate (property C19).                                       *)
 (* case  : one description + the list of registration sets tried on it        *)
 (* events: validate {ri, ok, section, missing_reg, missing_spec, panic}       *)
-(*         serve    {ri, op, ctype, accept, alt, status, ran, class}          *)
+(*         serve    {ri, op, ctype, accept, accept_first, alt, status, ran, class} *)
 (*         do       {act, arg, arg2, panic}   history cases: one call that     *)
 (*                  changes the registrations of the case's one API value;    *)
 (*                  validate / serve with ri = 0 refer to that value           *)
